@@ -525,6 +525,9 @@ def parseLine (p : Parsed) (line : String) : Parsed :=
   | ["op", "start"] => { p with ops := .start [] :: p.ops }
   -- how the implementation side represents a reading (float r/8, int r, Fraction r/7): the model
   -- computes in reading units over all of Int whatever the representation
+  -- Python protocol dressing of a handle and its worlds (value-equal, unhashable, falsy): handles
+  -- and worlds are identified by identity here, the line changes nothing
+  | ["identity", h, _, _, _, _] => if h.toNat?.isSome then p else { p with bad := true }
   | ["clock", k] => if k = "f8" || k = "int" || k = "frac" then p else { p with bad := true }
   | "frame" :: r :: rest =>
     match parseReading r, parsePActs rest, p.ops with
